@@ -210,7 +210,7 @@ func (cli *Client) handshake(c diam.Conn) (diam.Conn, error) {
 	cli.Handler.mux.HandleIdx(baseCERIdx, diam.HandlerFunc(cerClientHandler))
 	cli.Handler.mux.HandleFunc("CER", cerClientHandler)
 	// Handle CEA and DWA.
-	errc := make(chan error)
+	errc := make(chan error, 1) // the CEA handler must never block on a departed dialer
 	cli.Handler.mux.Handle("CEA", handleCEA(cli.Handler, errc))
 
 	var dwac chan struct{}
